@@ -1952,7 +1952,8 @@ Examples:
     ['x','x','x','y','y','z']
 """
   from mystic.tools import flatten, list_or_tuple_or_ndarray
-  return list(flatten(params, to_expand=list_or_tuple_or_ndarray))
+  expand = lambda x: list_or_tuple_or_ndarray(x) and getattr(x, 'ndim', 1) > 0
+  return list(flatten(params, to_expand=expand))
 
 
 def _nested(params, npts):
